@@ -179,6 +179,17 @@ def case_strategy(max_len=30):
             tgt = chains[0]
             if tgt['seq']:
                 tgt['static'] = [[[[draw(gt_names), 1]], [tgt['seq'][0]]]]
+        # numerals whose float repr() uses 'e+' (1e16 and above) and the integer 0: C01 compares no masses, so they are harmless here
+        if gen.rare(draw, 12):
+            tgt = chains[0]
+            big = draw(st.sampled_from(['10000000000000000.0', '+12345678901234567.0', '-250000000000000000000.0', '0', '+0', '0.0',
+                                        '100000000000000000000', '1234567890123456789012']))
+            slot = draw(st.sampled_from(['nterm', 'cterm', 'labile', 'unknown', 'internal']))
+            if slot == 'internal':
+                if tgt['seq']:
+                    tgt['internal'] = [[0, [[big, 1]]]] + [x for x in tgt['internal'] if x[0] != 0]
+            else:
+                tgt[slot] = [[big, draw(st.sampled_from([1, 1, 2]))]]
         if n > 1:
             for c in chains:
                 if not c['seq']:
